@@ -63,6 +63,8 @@ pub mod hb {
         pub gapless: bool,
         pub num_values: usize,
         pub repr_size: usize,
+        pub min_key: i64,
+        pub max_key: i64,
     }
 
     pub fn any_cfg() -> Cfg {
@@ -91,6 +93,8 @@ pub mod hb {
             gapless: kani::any(),
             num_values: kani::any(),
             repr_size: kani::any(),
+            min_key: kani::any(),
+            max_key: kani::any(),
         };
         kani::assume(c.as_str_mode <= 2 && c.from_str_fn_mode <= 2 && c.from_str_trait_mode <= 2);
         kani::assume(c.iter_mode <= 4);
@@ -102,6 +106,11 @@ pub mod hb {
         // shape: 1..=65534 variants, a with-holes enum has at least 2
         kani::assume(c.num_values >= 1 && c.num_values <= 65534);
         kani::assume(c.gapless || c.num_values >= 2);
+        // smallest / largest discriminant consistent with the shape: a gapless enum spans exactly
+        // num_values integers, an enum with holes spans more
+        kani::assume(c.min_key <= c.max_key);
+        let span = (c.max_key as i128) - (c.min_key as i128) + 1;
+        kani::assume(if c.gapless { span == c.num_values as i128 } else { span > c.num_values as i128 });
         kani::assume(c.repr_size == 1 || c.repr_size == 2 || c.repr_size == 4 || c.repr_size == 8 || c.repr_size == 16);
         c
     }
@@ -177,7 +186,7 @@ pub mod hb {
         }
     }
 
-    /// `Derive` with only the three fields `resolve` reads initialised (constructing an
+    /// `Derive` with every field except the three `Ident`s initialised (constructing an
     /// `Ident` makes kani-compiler 0.68 ICE; the Ident fields are never read by resolve)
     pub struct DeriveBox(MaybeUninit<Derive>);
     impl DeriveBox {
@@ -188,6 +197,10 @@ pub mod hb {
                 addr_of_mut!((*d.as_mut_ptr()).mode).write(mode);
                 addr_of_mut!((*d.as_mut_ptr()).num_values).write(c.num_values);
                 addr_of_mut!((*d.as_mut_ptr()).repr_size_guessed).write(c.repr_size);
+                addr_of_mut!((*d.as_mut_ptr()).min_key).write(c.min_key);
+                addr_of_mut!((*d.as_mut_ptr()).max_key).write(c.max_key);
+                addr_of_mut!((*d.as_mut_ptr()).values).write(Vec::new());
+                addr_of_mut!((*d.as_mut_ptr()).vis_enum).write(syn::Visibility::Inherited);
             }
             DeriveBox(d)
         }
